@@ -34,7 +34,8 @@ SKIP = ("ParenExpr", "ConstantExpr", "ExprWithCleanups", "MaterializeTemporaryEx
 CASTS = ("ImplicitCastExpr", "CStyleCastExpr", "CXXStaticCastExpr", "CXXFunctionalCastExpr", "CXXReinterpretCastExpr",
          "CXXConstCastExpr")
 KEYWORDS = ("at", "as", "in", "fun", "let", "end", "fix", "using", "with", "match", "return", "if", "then", "else", "forall",
-            "exists", "Type", "Prop", "Set", "mem", "fuel", "fuel0", "load", "store", "padd", "block", "view")
+            "exists", "Type", "Prop", "Set", "mem", "fuel", "fuel0", "load", "store", "padd", "block", "view", "memory", "ptr", "cres", "fres",
+            "finish", "upd", "Go", "Done", "Oob", "NoFuel", "Null", "Ptr", "schar", "uchar", "byte_of", "cw", "nat", "Z", "N", "list", "length")
 
 
 TYPEDEFS = {"size_t": "unsigned long", "ssize_t": "long", "uint8_t": "unsigned char", "uint32_t": "unsigned int",
@@ -149,6 +150,35 @@ class LoopFn:
             return n["name"]
         raise Unsupported("callee of kind %s" % k)
 
+    def obj_prefix_of(self, x):
+        while x is not None and x.get("kind") in ("ImplicitCastExpr", "ParenExpr", "MaterializeTemporaryExpr", "CXXBindTemporaryExpr"):
+            x = self.inner(x)[0] if self.inner(x) else None
+        if x is None or x.get("kind") == "CXXThisExpr":
+            return "this"
+        if x.get("kind") == "UnaryOperator" and x.get("opcode") == "*":
+            return self.obj_prefix_of(self.inner(x)[0])
+        if x.get("kind") == "DeclRefExpr" and x["referencedDecl"].get("kind") in ("ParmVarDecl", "VarDecl"):
+            return x["referencedDecl"]["name"]
+        raise Unsupported("member call on an object expression of kind %s" % x.get("kind"))
+
+    def obj_prefix(self, callee):
+        """'this' or the name of the parameter a member function is called on"""
+        x = callee
+        while x.get("kind") in ("ImplicitCastExpr", "ParenExpr"):
+            x = self.inner(x)[0]
+        if x.get("kind") != "MemberExpr":
+            raise Unsupported("member call through %s" % x.get("kind"))
+        inn = self.inner(x)
+        return self.obj_prefix_of(inn[0] if inn else None)
+
+    def field_var(self, prefix, field, ty):
+        nm = "%s_%s" % (prefix, field)
+        if nm not in self.vars:
+            self.vars[nm] = ty
+            self.order.append(nm)
+            self.fields.append(nm)
+        return nm
+
     def strip(self, n):
         while n.get("kind") in SKIP or (n.get("kind") in CASTS and n.get("castKind") in ("NoOp", "BitCast")):
             n = self.inner(n)[0]
@@ -255,9 +285,23 @@ class LoopFn:
             ck = n.get("castKind")
             x = inn[0]
             if ck == "LValueToRValue":
+                y = x
+                while y.get("kind") in SKIP:
+                    y = self.inner(y)[0]
+                if y.get("kind") == "DeclRefExpr" and y["referencedDecl"].get("name") in self.cfg.get("globals", {}) and \
+                        self.ident(y["referencedDecl"]["name"]) not in self.vars:
+                    return k(self.cfg["globals"][y["referencedDecl"]["name"]])
                 return self.L(x, lambda lv: self.rvalue(lv, k))
             if ck in ("NoOp", "BitCast"):
                 return self.E(x, k)
+            if ck == "ArrayToPointerDecay":
+                y = x
+                while y.get("kind") in SKIP:
+                    y = self.inner(y)[0]
+                if y.get("kind") == "DeclRefExpr" and y["referencedDecl"].get("name") in self.cfg.get("global_arrays", []):
+                    # a constant global array: a pointer parameter of the translation (its content is a hypothesis of the theorems)
+                    return k(self.field_var("global", y["referencedDecl"]["name"], "ptr"))
+                raise Unsupported("array to pointer decay of %s" % y.get("kind"))
             if ck == "NullToPointer":
                 return k("Null")
             if ck == "IntegralCast":
@@ -273,6 +317,8 @@ class LoopFn:
                 v = self.tr.enum_constant(self.cfg["file"], ref["name"]) if ref["name"] not in self.cfg.get("enum_values", {}) \
                     else self.cfg["enum_values"][ref["name"]]
                 return k(str(v) if v >= 0 else "(%d)" % v)
+            if ref["name"] in self.cfg.get("globals", {}) and self.ident(ref["name"]) not in self.vars:
+                return k(self.cfg["globals"][ref["name"]])
             return self.L(n, lambda lv: self.rvalue(lv, k))
         if kd == "UnaryOperator":
             op = n["opcode"]
@@ -280,6 +326,12 @@ class LoopFn:
                 return self.incdec(n, lambda v, lv: k(v))
             if op == "*":
                 return self.L(n, lambda lv: self.rvalue(lv, k))
+            if op == "&":
+                def addr(lv):
+                    if lv[0] != "mem":
+                        raise Unsupported("address of a variable")
+                    return k(lv[1])
+                return self.L(inn[0], addr)
             if op == "!":
                 return self.E(inn[0], lambda v: k("(c_lnot %s)" % v))
             if op == "-":
@@ -351,6 +403,25 @@ class LoopFn:
                 raise Unsupported("call to unmapped function %s" % name)
             args = list(inn[1:])
             spec = self.calls[name]
+            if kd == "CXXOperatorCallExpr" and isinstance(spec, dict) and spec.get("operands_fields"):
+                # a free operator on objects: each operand contributes the named fields
+                vals = []
+                for a in args:
+                    pre = self.obj_prefix_of(a)
+                    vals += [self.field_var(pre, f, t) for f, t in spec["operands_fields"]]
+                return self.call(spec, vals, k)
+            if isinstance(spec, dict) and (spec.get("field") or spec.get("obj")):
+                pre = self.obj_prefix(inn[0])
+                if spec.get("field"):          # an accessor: the call is the object's field
+                    f, t = spec["field"]
+                    return k(self.field_var(pre, f, t))
+                objargs = [self.field_var(pre, f, t) for f, t in spec["obj"]]
+
+                def eval_margs(i, acc):
+                    if i == len(args):
+                        return self.call(spec, acc, k)
+                    return self.E(args[i], lambda v: eval_margs(i + 1, acc + [v]))
+                return eval_margs(0, objargs)
 
             def eval_args(i, acc):
                 if i == len(args):
@@ -364,6 +435,9 @@ class LoopFn:
                 return k("8")
             if q in cxx2coq.SIZEOF:
                 return k(str(cxx2coq.SIZEOF[q]))
+            m = re.fullmatch(r"(.+?)\s*\[(\d+)\]", q)
+            if m and norm_type(m.group(1)) in cxx2coq.SIZEOF:
+                return k(str(cxx2coq.SIZEOF[norm_type(m.group(1))] * int(m.group(2))))
             raise Unsupported("sizeof %s" % q)
         raise Unsupported("expression kind %s" % kd)
 
@@ -409,7 +483,10 @@ class LoopFn:
         if kd == "VarDecl":
             declared.add(self.ident(n["name"]))
         if kd == "DeclRefExpr" and n["referencedDecl"].get("kind") in ("ParmVarDecl", "VarDecl"):
-            refs.add(self.ident(n["referencedDecl"]["name"]))
+            if n["referencedDecl"]["name"] in self.cfg.get("global_arrays", []):
+                refs.add(self.field_var("global", n["referencedDecl"]["name"], "ptr"))
+            else:
+                refs.add(self.ident(n["referencedDecl"]["name"]))
         if kd == "MemberExpr":
             base = inn[0] if inn else None
             while base is not None and base.get("kind") in ("ImplicitCastExpr", "ParenExpr"):
@@ -444,11 +521,18 @@ class LoopFn:
                 spec = self.calls.get(self.callee_name(inn[0]))
             except Unsupported:
                 spec = None
-            if isinstance(spec, dict):
+            if isinstance(spec, dict) and spec.get("fn"):
                 flags.add("mem")
                 flags.add("call")
                 if spec.get("writes"):
                     flags.add("store")
+            if isinstance(spec, dict) and (spec.get("field") or spec.get("obj")):
+                try:
+                    pre = self.obj_prefix(inn[0])
+                    for f, t in ([spec["field"]] if spec.get("field") else spec["obj"]):
+                        refs.add(self.field_var(pre, f, t))
+                except Unsupported:
+                    pass
         if kd in ("WhileStmt", "DoStmt", "ForStmt"):
             flags.add("call")
         for c in inn:
@@ -456,7 +540,11 @@ class LoopFn:
 
     def predeclare(self, n):
         if n.get("kind") in ("VarDecl", "ParmVarDecl") and n.get("name"):
-            self.declare(n["name"], qual(n))
+            try:
+                self.declare(n["name"], qual(n))
+            except Unsupported:
+                if n.get("kind") != "ParmVarDecl":      # an object parameter is only reachable through its mapped fields
+                    raise
         for c in self.inner(n):
             self.predeclare(c)
 
@@ -645,12 +733,21 @@ class LoopFn:
         self.rtype = "(%s * memory)" % base if self.fn_stores else base
         end = (lambda: self.ret("tt")) if void else (lambda: "Oob")       # falling off the end of a non-void function
         text = self.S([body], end, {})
+        # parameters: the fields of `this`, the fields of the object parameters (in parameter order), then the ordinary parameters
+        pnames = [p.get("name", "_") for p in params]
+
+        def fkey(f):
+            if f.startswith("global_"):
+                return (-1, self.fields.index(f))
+            pre = next((q for q in ["this"] + pnames if f.startswith(q + "_")), "this")
+            return (0 if pre == "this" else 1 + pnames.index(pre), self.fields.index(f))
         ps = []
+        for f in sorted(self.fields, key=fkey):
+            ps.append("(%s : %s)" % (f, self.vars[f]))
         for p in params:
             nm = self.ident(p.get("name", "_"))
-            ps.append("(%s : %s)" % (nm, self.vars[nm]))
-        for f in self.fields:
-            ps.append("(%s : %s)" % (f, self.vars[f]))
+            if nm in self.vars:
+                ps.append("(%s : %s)" % (nm, self.vars[nm]))
         hdr = "(* %s : %s *)\n" % (self.cfg["file"], self.cfg["name"])
         return hdr + "".join(self.loops) + "Definition %s (fuel0 : nat) (mem : memory) %s : fres %s :=\n  finish (R := %s) (A := unit)\n    %s.\n" % (
             self.coq, " ".join(ps), self.rtype, self.rtype, pretty(text))
